@@ -510,20 +510,32 @@ qlisttbl_data_t *qlisttbl_getmulti(qlisttbl_t *tbl, const char *name, bool newme
 
     qlisttbl_obj_t obj;
     memset((void *)&obj, 0, sizeof(obj)); // must be cleared before call
+    bool failed = false;
     qlisttbl_lock(tbl);
-    while (tbl->getnext(tbl, &obj, name, newmem) == true) {
+    while (true) {
+        if (tbl->getnext(tbl, &obj, name, newmem) == false) {
+            if (errno == ENOMEM) failed = true;
+            break;
+        }
         numfound++;
 
         // allocate object array.
         if (numfound >= allocobjs) {
             if (allocobjs == 0) allocobjs = 10;  // start from 10
             else allocobjs *= 2;  // double size
-            objs = (qlisttbl_data_t *)realloc(objs, sizeof(qlisttbl_data_t) * allocobjs);
-            if (objs == NULL) {
+            qlisttbl_data_t *newobjs = (qlisttbl_data_t *)realloc(objs, sizeof(qlisttbl_data_t) * allocobjs);
+            if (newobjs == NULL) {
                 DEBUG("qlisttbl->getmulti(): Memory reallocation failure.");
-                errno = ENOMEM;
+                // drop the entry just fetched; the array is still terminated
+                if (newmem == true) {
+                    free(obj.name);
+                    free(obj.data);
+                }
+                numfound--;
+                failed = true;
                 break;
             }
+            objs = newobjs;
         }
 
         // copy reference
@@ -543,6 +555,16 @@ qlisttbl_data_t *qlisttbl_getmulti(qlisttbl_t *tbl, const char *name, bool newme
         newobj->type = 0;  // mark, end of objects
     }
     qlisttbl_unlock(tbl);
+
+    if (failed == true) {
+        // never hand out a partial result as if it were complete
+        qlisttbl_freemulti(objs);
+        if (numobjs != NULL) {
+            *numobjs = 0;
+        }
+        errno = ENOMEM;
+        return NULL;
+    }
 
     // return found counter
     if (numobjs != NULL) {
@@ -751,6 +773,7 @@ bool qlisttbl_getnext(qlisttbl_t *tbl, qlisttbl_obj_t *obj, const char *name,
     uint32_t hash = (name != NULL) ? qhashmurmur3_32(name, strlen(name)) : 0;
 
     bool ret = false;
+    bool nomem = false;
     while (cont != NULL) {
         if (name == NULL || tbl->namematch(cont, name, hash) == true) {
             if (newmem == true) {
@@ -761,7 +784,7 @@ bool qlisttbl_getnext(qlisttbl_t *tbl, qlisttbl_obj_t *obj, const char *name,
                     if (obj->data != NULL) free(obj->data);
                     obj->name = NULL;
                     obj->data = NULL;
-                    errno = ENOMEM;
+                    nomem = true;
                     break;
                 }
                 memcpy(obj->data, cont->data, cont->size);
@@ -783,7 +806,7 @@ bool qlisttbl_getnext(qlisttbl_t *tbl, qlisttbl_obj_t *obj, const char *name,
     qlisttbl_unlock(tbl);
 
     if (ret == false) {
-        errno = ENOENT;
+        errno = (nomem == true) ? ENOMEM : ENOENT;
     }
 
     return ret;
